@@ -33,8 +33,12 @@ CASE_HEADER = ("From Coq Require Import ZArith List Bool String.\n"
 TRUSTED = [
     "Coq 8.16.1 kernel + vm_compute (no native_compute); Print Assumptions of every theorem in Props/C12.v: closed under the global context",
     "extractor harness/translate/c12.py: the bodies of InProcessOpInvoker.map, ProcessPoolOpInvoker.{__init__,map,_task_iter,shutdown}, worker.{initalize,worker}, "
-    "invoker, ModelOpInvoker.__exit__, SHMPickler.{__init__,_buffer_cb,reducer_override}, shm_serialize, shm_deserialize, _run_pipeline, BatchPipelineRunner.run and "
-    "BatchResults.add_result must be exactly the expected statements; SHMPickler has no other member and serialize.py no other module-level definition (fails closed otherwise)",
+    "LensKitProcess.run, LensKitMPContext.Process, invoker, ModelOpInvoker.__exit__, SHMPickler.{__init__,_buffer_cb,reducer_override}, shm_serialize, shm_deserialize, _run_pipeline, BatchPipelineRunner.run and "
+    "BatchResults.add_result must be exactly the expected statements; SHMPickler has no other member and serialize.py no other module-level definition; every statement of worker.initalize is one of the "
+    "recognised steps (generated worker_init_steps) and worker.py has no other module-level statement (fails closed otherwise)",
+    "IEEE 754 contract behind the floating-point part of the task values: mul / add / sub / div / sqrt / float64->float32 conversion are correctly rounded element by "
+    "element whatever the code path (Python float, NumPy loop, torch kernel), and the generated reductions are over integer multiples of one power of two whose exact sum "
+    "is representable, so these values are functions of the operands alone in one numeric environment; the harness compares bit patterns",
     "NumPy contract (model's encode): ndarray.__reduce_ex__(5) ships an array that is an axis permutation of a C-ordered block out of band as that block (order C / F / K with "
     "the axis order) and every other array in band; the harness reads the class of each generated array from the public result of __reduce_ex__(5), and the block bytes the "
     "model predicts are compared with the bytes observed in every shared-memory block",
@@ -53,10 +57,14 @@ RULE = ("seq: 1-9 tasks, failing position anywhere or none; pool: n_jobs in {2,3
         "decreasing delays, a failing task at a chosen position, every pool model holding ndarrays of every memory layout (C, Fortran, transposed view, permuted axes, "
         "every-second slice, negative stride, inner columns, inner rows of a Fortran block, broadcast; 0-4 dims incl. 0-d and empty; 19 dtypes incl. big-endian, strings, "
         "date-times, structured; read-only) and dense (transposed, strided, 0-d, empty; 9 dtypes), COO (coalesced, repeated entry, unsorted), CSR/CSC (32/64-bit indices), "
-        "BSR and BSC tensors, nested, whose content hashes are computed inside the worker and compared leaf by leaf; shm: trees of 0-6 payloads (vectors of 0-40 bytes, arrays "
+        "BSR and BSC tensors, nested, whose content hashes are computed inside the worker and compared leaf by leaf; every seq / pool model also holds four float vectors "
+        "given bit by bit (NumPy and torch, float32 and float64: small and large subnormal numbers, least normal and largest finite numbers, signed zeros, infinities, "
+        "NaNs with a payload, rounding ties) and every second pool task (every third seq task) evaluates 1-3 computations on a model or task vector by Python floats, NumPy or "
+        "torch (exact reductions over subnormal numbers scaled in and out of the normal range; chains of 1-3 elementwise mul / add / sub / div / sqrt by powers of two or "
+        "values of every class, optionally narrowed to float32) whose bit patterns are part of the task's value; shm: trees of 0-6 payloads (vectors of 0-40 bytes, arrays "
         "of any layout up to 12 elements, tensors), page sizes 1/64/4096; batch: 3 scorers x recommend/score/predict, id / dict / "
         "collection test data with 1-2 key fields (with or without user_id), duplicate keys, 0-6 keys, n_jobs 1 (and 2,3 through the driver), a component failing "
-        "for one key; non-trivial = a pool case, or a map with >= 3 tasks, or a batch with >= 2 keys, or a tree with >= 2 payloads one of which is empty or padded, or a tree holding an array that is not C-ordered or a tensor; "
+        "for one key, ratings of ordinary magnitude or scaled by 2^-135 (every rating, mean and score a subnormal single-precision number; every second pool batch); non-trivial = a pool case, or a map with >= 3 tasks, or a batch with >= 2 keys, or a tree with >= 2 payloads one of which is empty or padded, or a tree holding an array that is not C-ordered or a tensor; "
         "distinct = by hash of the case")
 
 HARNESS = os.path.dirname(os.path.dirname(os.path.abspath(__file__)))
@@ -151,10 +159,117 @@ def gen_model(rng, rich):
         m[f"a{j}"] = {"kind": "nd", "dtype": dt, "shape": [ln], "data": [rng.randint(0, 100) for _ in range(ln)]}
     if rng.chance(1, 2):
         m["m2"] = gen_nd(rng, min_dims=2)
+    m["num"] = gen_num_model(rng.fork("num"))
     if rich:
         m["payloads"] = gen_payloads(rng)
         m["nest"] = [{"kind": "nd", "dtype": "uint8", "shape": [2], "data": [rng.randint(0, 255), 7]}, {"kind": "py", "value": "s"}]
     return m
+
+
+# ---- floating-point values bit by bit, and small computations on them -------------------------------------------
+# What a task returns must be f(model, x) whatever process evaluates it: the computations below are exact functions of
+# their operands under IEEE arithmetic (see c12_tasks.calc), over the values on which a process-wide numeric mode would
+# show: subnormal operands and results, the largest finite numbers, signed zeros, NaNs with a payload, ties of the
+# rounding.
+
+FSPEC = {"float64": (52, 11), "float32": (23, 8)}
+
+
+def _fb(dt, sign, exp, frac):
+    m, e = FSPEC[dt]
+    return (sign << (m + e)) | (exp << m) | frac
+
+
+def _pow2(dt, k):
+    "bits of 2**k (normal range)"
+    m, e = FSPEC[dt]
+    return _fb(dt, 0, k + (1 << (e - 1)) - 1, 0)
+
+
+def gen_fvalue(rng, dt):
+    m, e = FSPEC[dt]
+    emax = (1 << e) - 1
+    bias = (1 << (e - 1)) - 1
+    r = rng.below(12)
+    sign = 1 if rng.chance(1, 4) else 0
+    if r < 3:                                            # a small multiple of the least subnormal number
+        return _fb(dt, sign, 0, rng.randint(1, 1000))
+    if r < 5:                                            # subnormal numbers just below the least normal one
+        return _fb(dt, sign, 0, (1 << m) - 1 - rng.below(3)) if rng.chance(1, 2) else _fb(dt, sign, 0, 1 << rng.randint(m - 4, m - 1))
+    if r == 5:                                           # the least normal numbers
+        return _fb(dt, sign, 1, rng.choice([0, 1, (1 << m) - 1]))
+    if r == 6:                                           # the largest finite numbers
+        return _fb(dt, sign, emax - 1, rng.choice([(1 << m) - 1, 0, 1 << (m - 1)]))
+    if r == 7:                                           # signed zeros and infinities
+        return _fb(dt, sign, rng.choice([0, 0, emax]), 0)
+    if r == 8:                                           # quiet NaNs with a payload
+        return _fb(dt, sign, emax, (1 << (m - 1)) | rng.randint(0, 4000))
+    if r == 9:                                           # ties of the rounding: 1 + ulp, 1 - ulp/2, 1/3-like
+        return _fb(dt, sign, bias - rng.below(2), rng.choice([1, (1 << m) - 1, int("01" * 26, 2) & ((1 << m) - 1)]))
+    return _fb(dt, sign, bias + rng.randint(-3, 6), rng.below(1 << m) if rng.chance(1, 2) else 0)      # ordinary
+
+
+def gen_fvector(rng, dt):
+    "4 small multiples of the least subnormal number (their sums are exact), then 4-8 values of every class"
+    return [_fb(dt, 0, 0, rng.randint(1, 1000)) for _ in range(4)] + [gen_fvalue(rng, dt) for _ in range(rng.randint(4, 8))]
+
+
+def gen_num_model(rng):
+    return {"a64": {"kind": "fbits", "lib": "np", "dtype": "float64", "bits": gen_fvector(rng, "float64")},
+            "a32": {"kind": "fbits", "lib": "np", "dtype": "float32", "bits": gen_fvector(rng, "float32")},
+            "t64": {"kind": "fbits", "lib": "torch", "dtype": "float64", "bits": gen_fvector(rng, "float64")},
+            "t32": {"kind": "fbits", "lib": "torch", "dtype": "float32", "bits": gen_fvector(rng, "float32")}}
+
+
+def gen_calc(rng, num_model):
+    """one computation of a task: on a vector of the model or of the task itself, by Python floats, NumPy or torch"""
+    lib = rng.choice(["py", "np", "np", "torch", "torch"])
+    dt = "float64" if lib == "py" else rng.choice(["float64", "float32"])
+    m, e = FSPEC[dt]
+    bias = (1 << (e - 1)) - 1
+    c = {"lib": lib, "dtype": dt, "src": rng.choice(["model", "task"])}
+    if c["src"] == "model":
+        import c12_tasks
+        n = len(num_model[c12_tasks.NUM_KEY[lib, dt]]["bits"])
+    else:
+        c["xs"] = gen_fvector(rng, dt)
+        n = len(c["xs"])
+    steps = []
+    if rng.chance(1, 2):
+        # a reduction over the small subnormal multiples: exact, so the order of the additions is immaterial; scaled into
+        # the normal range before or after (a power of two: exact as well), or left subnormal
+        sel = rng.sample([0, 1, 2, 3], rng.randint(2, 4))
+        up = m + rng.randint(12, bias - m - 12)           # 2**up * (k * least subnormal) is normal and far from overflow
+        how = rng.below(4)
+        if how == 0:
+            steps = [["sum", None], ["mul", [_pow2(dt, up)]]]
+        elif how == 1:
+            steps = [["mul", [_pow2(dt, rng.randint(0, 20))]], ["sum", None]]
+        elif how == 2:
+            steps = [["dot", [_pow2(dt, rng.choice([0, 3, up]))] * len(sel)]]
+        else:
+            steps = [["mul", [_pow2(dt, up)]], ["sum", None]]
+        c["class"] = "subnormal-sum"
+    else:
+        sel = rng.sample(list(range(n)), rng.randint(1, min(n, 6)))
+        for _ in range(rng.randint(1, 3)):
+            op = rng.choice(["mul", "mul", "add", "sub", "div", "sqrt"])
+            if op == "sqrt":
+                steps.append([op, None])
+            elif rng.chance(1, 2):                        # by a power of two: into and out of the subnormal range
+                k = rng.choice([1, -1]) * rng.randint(1, bias - 2)
+                steps.append([op, [_pow2(dt, k)]])
+            else:
+                steps.append([op, [gen_fvalue(rng, dt)] if rng.chance(1, 2) else [gen_fvalue(rng, dt) for _ in sel]])
+        if dt == "float64" and rng.chance(1, 4):
+            steps.append(["cast32", None])
+        c["class"] = "elementwise"
+    if c["src"] == "model":
+        c["sel"] = sorted(sel) if c["class"] == "subnormal-sum" else sel
+    else:
+        c["xs"] = [c["xs"][i] for i in sel]
+    c["steps"] = steps
+    return c
 
 
 FAIL_KINDS = ["TaskFailure", "StopIteration", "KeyError", "ValueError", "HardStop"]
@@ -177,6 +292,17 @@ def gen_tasks(rng, n, fail_at=None, delays=False, dup=False, kill_at=None, fail_
     return ts
 
 
+def attach_calcs(rng, maps, num_model, often=(1, 2)):
+    "0-3 floating-point computations per task (the same for duplicates of a task)"
+    for mi, tasks in enumerate(maps):
+        for t in tasks:
+            r = rng.fork(("calc", mi, t["id"], t["x"]))
+            if t.get("fail") or t.get("kill") or not r.chance(*often):
+                continue
+            t["calc"] = [gen_calc(r, num_model) for _ in range(r.randint(1, 3))]
+    return maps
+
+
 def gen_seq_case(rng):
     n = rng.weighted([(0, 1), (1, 2), (2, 2), (3, 3), (5, 3), (9, 1)])
     fail_at = rng.below(n) if n and rng.chance(1, 2) else None
@@ -184,7 +310,8 @@ def gen_seq_case(rng):
     if rng.chance(1, 2):                     # a failure of every class somewhere in a second map
         m = rng.randint(1, 6)
         maps.append(gen_tasks(rng, m, fail_at=rng.below(m), fail_kind=FAIL_KINDS[rng.below(len(FAIL_KINDS))]))
-    return {"kind": "seq", "n_jobs": 1, "model": gen_model(rng, rng.chance(1, 3)), "maps": maps}
+    model = gen_model(rng, rng.chance(1, 3))
+    return {"kind": "seq", "n_jobs": 1, "model": model, "maps": attach_calcs(rng.fork("calcs"), maps, model["num"], (1, 3))}
 
 
 def gen_pool_case(rng, n_jobs, kill=False):
@@ -207,7 +334,8 @@ def gen_pool_case(rng, n_jobs, kill=False):
     exit_map = [{"id": i, "x": i, "delay_ms": 300} for i in range(ne)]
     bad = rng.below(2)
     exit_map[bad] = {"id": bad, "x": bad, "fail": rng.choice(FAIL_KINDS[:4])}
-    return {"kind": "pool", "n_jobs": n_jobs, "model": gen_model(rng, True), "maps": maps, "exit_map": exit_map}
+    model = gen_model(rng, True)
+    return {"kind": "pool", "n_jobs": n_jobs, "model": model, "maps": attach_calcs(rng.fork("calcs"), maps, model["num"]), "exit_map": exit_map}
 
 
 def gen_shm_case(rng):
@@ -225,6 +353,10 @@ def gen_shm_case(rng):
         else:
             leaves.append(gen_tensor(rng))
     nest = rng.chance(1, 2)
+    fr = rng.fork("fbits")
+    if fr.chance(1, 3):                           # float vectors given bit by bit: subnormal numbers, NaN payloads, signed zeros
+        dt = fr.choice(["float64", "float32"])
+        leaves.insert(fr.below(len(leaves) + 1), {"kind": "fbits", "lib": fr.choice(["np", "np", "torch"]), "dtype": dt, "bits": gen_fvector(fr, dt)})
     return {"kind": "shm", "leaves": leaves, "nest": nest, "page": rng.choice([1, 64, 4096])}
 
 
@@ -238,7 +370,7 @@ def gen_ratings(rng):
     return rows, users, items
 
 
-def gen_batch_case(rng, n_jobs=1):
+def gen_batch_case(rng, n_jobs=1, rating_exp=None):
     rows, users, items = gen_ratings(rng)
     op = rng.choice(["recommend", "score", "predict"])
     ops = None
@@ -270,6 +402,8 @@ def gen_batch_case(rng, n_jobs=1):
     case = {"kind": "batch", "mode": "batch", "n_jobs": n_jobs, "ratings": rows, "scorer": scorer, "op": op, "form": form, "key_fields": key_fields,
             "keys": keys, "items": None if form == "ids" else its, "n": rng.choice([None, 2, 3]) if (ops or op == "recommend") else None,
             "pipe_n": rng.choice([None, 4]), "fail_user": None, "fail_exc": None, "ops": ops}
+    # magnitude of the ratings: ordinary, or every rating / mean / score a subnormal single-precision number
+    case["rating_exp"] = rng.fork("rating-exp").choice([0, 0, 0, -135]) if rating_exp is None else rating_exp
     if keys and "user_id" in key_fields and rng.chance(1, 4):
         case["fail_user"] = keys[rng.below(len(keys))][key_fields.index("user_id")]
         case["fail_exc"] = rng.choice(["QueryFailure", "StopIteration", "KeyError"])
@@ -283,7 +417,7 @@ def gen_cases(rng, tier):
     for j, nj in enumerate(pools):
         cases.append(gen_pool_case(rng.fork(("pool", j)), nj, kill=(j % 4 == 1)))
     for j in range(2 if quick else 16):
-        cases.append(gen_batch_case(rng.fork(("bpool", j)), n_jobs=[2, 3, 5][j % 3]))
+        cases.append(gen_batch_case(rng.fork(("bpool", j)), n_jobs=[2, 3, 5][j % 3], rating_exp=[0, -135][j % 2]))
     for j in range(60 if quick else 600):
         cases.append(gen_seq_case(rng.fork(("seq", j))))
     for j in range(150 if quick else 1500):
@@ -440,7 +574,7 @@ ERRCODE = {"TaskFailure": 0, "BrokenProcessPool": 2}
 
 
 def _strip(r):
-    return {k: r[k] for k in ("id", "x2", "digest")}
+    return {k: r.get(k) for k in ("id", "x2", "digest", "num")}
 
 
 def _schedule(results, n_tasks):
@@ -500,9 +634,9 @@ def _tree(spec):
         return "(TNode [" + "; ".join(_tree(s) for s in spec.values()) + "])"
     if k == "py":
         return f"(TAtom {cz(int(spec['value']))})"
-    if k != "nd":
+    if k != "nd" and not (k == "fbits" and spec["lib"] == "np"):
         return "(TAtom 0)"                     # tensors travel through torch's reducers (contract), not through the blocks
-    info = c12_tasks.nd_info(c12_tasks.build_nd(spec))
+    info = c12_tasks.nd_info(c12_tasks.build_payload(spec))
     tr = info["transport"]
     trs = f"(OutOfBand {clist(tr[1], cnat)} {clist(tr[2], cnat)})" if tr[0] == "oob" else "InBand"
     return f"(TArr {trs} {cnat(info['isz'])} {clist(info['shape'], cnat)} {clist(info['elems'], lambda e: clist(e, cnat))})"
@@ -591,7 +725,21 @@ def oracle_maps(case, obs):
                       f"the caller passed: sent {w}, arrived {g}; spec {_leaf_at(case['model'], path)}"))
         if changed:
             break
+    seen = set()
     for mi, (tasks, m, exp) in enumerate(zip(case["maps"], obs["maps"], obs["expected"])):
+        # the value of a task is a function of (model, task): floating-point arithmetic gives the same bits in whichever process it runs
+        for ti, (t, r, e) in enumerate(zip(tasks, m["results"], exp)):
+            if e is None or r.get("id") != t["id"] or r.get("num") == e.get("num"):
+                continue
+            for c, g, w in zip(t.get("calc") or [], r.get("num") or [], e["num"]):
+                key = f"{case['kind']}:value-depends-on-process:{c['lib']}:{c['dtype']}:{c['class']}"
+                if g != w and key not in seen and len(seen) < 3:
+                    seen.add(key)
+                    xs = c["xs"] if c["src"] == "task" else [case["model"]["num"][_num_key(c)]["bits"][i] for i in c["sel"]]
+                    v.append((key, f"n_jobs={case['n_jobs']}, map {mi}, task {t['id']} in process {r.get('pid')}: {c['lib']} {c['dtype']} arithmetic on the "
+                              f"{'model' if c['src'] == 'model' else 'task'} vector with bit patterns {[hex(b) for b in xs]}, steps "
+                              f"{[[op, None if k is None else [hex(b) for b in k]] for op, k in c['steps']]}, gave {_hexes(g)} in the worker but {_hexes(w)} as "
+                              f"f(model, x) evaluated by the caller (n_jobs=1): the numeric environment of the process that runs the task differs"))
         bad = next((i for i, t in enumerate(tasks) if t.get("fail") or t.get("kill")), None)
         got = [_strip(r) for r in m["results"]]
         if bad is None:
@@ -626,6 +774,15 @@ def oracle_maps(case, obs):
     elif not obs.get("released", True):
         v.append(("seq:not-released", "the in-process invoker still holds the model after the with-block"))
     return v
+
+
+def _num_key(c):
+    import c12_tasks
+    return c12_tasks.NUM_KEY[c["lib"], c["dtype"]]
+
+
+def _hexes(r):
+    return r if not isinstance(r, list) or r[0] == "error" else [r[0], [hex(b) for b in r[1]]]
 
 
 def _changed(case, obs, result):
@@ -724,13 +881,17 @@ def counters(case, obs):
     yield "kind=" + k
     if k in ("seq", "pool"):
         yield f"{k}:n_jobs={case['n_jobs']}"
-        for tasks, m in zip(case["maps"], obs["maps"]):
+        for tasks, m, exp in zip(case["maps"], obs["maps"], obs["expected"]):
             rel = "none" if not tasks else "below" if len(tasks) < case["n_jobs"] else "at" if len(tasks) == case["n_jobs"] else "above"
             yield f"{k}:tasks-vs-workers={rel}"
             yield f"{k}:map-result={m['error'] or 'ok'}"
-            for t in tasks:
+            for t, e in zip(tasks, exp):
                 if t.get("fail"):
                     yield f"{k}:failure-class={t['fail']}"
+                for c, w in zip(t.get("calc") or [], (e or {}).get("num") or []):
+                    yield f"{k}:calc={c['lib']}:{c['dtype']}:{c['class']}:{c['src']}"
+                    for cl in _value_classes(w):
+                        yield f"{k}:calc-result={cl}"
             if len({json.dumps({a: b for a, b in t.items() if a != 'delay_ms'}, sort_keys=True) for t in tasks}) < len(tasks):
                 yield f"{k}:duplicate-tasks"
             if m["error"] is None and len({r["pid"] for r in m["results"]}) > 1:
@@ -754,10 +915,23 @@ def counters(case, obs):
         yield "batch:form=" + case["form"] + "/" + "+".join(case["key_fields"])
         yield "batch:keys=" + str(min(len(case["keys"]), 5))
         yield "batch:result=" + (obs["error"] or "ok")
+        yield f"batch:rating-scale=2^{case.get('rating_exp') or 0}"
         if len({tuple(x) for x in case["keys"]}) < len(case["keys"]):
             yield "batch:duplicate-keys"
         if case["fail_user"] is not None:
             yield "batch:failing-component=" + str(case.get("fail_exc"))
+
+
+def _value_classes(r):
+    "which kinds of floating-point values a computed result (evaluated by the caller) holds"
+    if not isinstance(r, list) or r[0] == "error":
+        return ["error"]
+    m, e = FSPEC[r[0]]
+    out = set()
+    for b in r[1]:
+        ex, fr = (b >> m) & ((1 << e) - 1), b & ((1 << m) - 1)
+        out.add("zero" if ex == 0 and fr == 0 else "subnormal" if ex == 0 else ("nan" if fr else "inf") if ex == (1 << e) - 1 else "normal")
+    return sorted(out)
 
 
 def _leaf_classes(spec):
